@@ -703,7 +703,17 @@ struct __gmp_binary_divides
   static void eval(mpz_ptr z, mpir_si l, mpz_srcptr w)
   {
     if (mpz_fits_si_p(w))
-      mpz_set_si(z, l / mpz_get_si(w));
+      {
+        mpir_si v = mpz_get_si(w);
+        if (v == -1)
+          {
+            /* l / -1 overflows in machine arithmetic for the most negative l */
+            mpz_set_si(z, l);
+            mpz_neg(z, z);
+          }
+        else
+          mpz_set_si(z, l / v);
+      }
     else
       {
         /* if w is bigger than a long then the quotient must be zero, unless
@@ -847,7 +857,11 @@ struct __gmp_binary_modulus
   static void eval(mpz_ptr z, mpir_si l, mpz_srcptr w)
   {
     if (mpz_fits_si_p(w))
-      mpz_set_si(z, l % mpz_get_si(w));
+      {
+        mpir_si v = mpz_get_si(w);
+        /* l % -1 traps in machine arithmetic for the most negative l */
+        mpz_set_si(z, v == -1 ? 0 : l % v);
+      }
     else
       {
         /* if w is bigger than a long then the remainder is l unchanged,
